@@ -446,3 +446,37 @@ def tla(v: Any) -> str:
 
 def q(s: str) -> str:
     return '"' + s + '"'
+
+
+def apalache(chk, module: str, obligations, what: str, timeout: int = 300):
+    """Run Apalache obligations on spec/<module>.tla: each obligation is (extra args, expect) with expect "ok" (no error up to
+    the length) or "violation" (a counterexample must be found: anti-vacuity).  Under a timeout; a stalled solver is recorded,
+    not treated as a result.  A missing expected counterexample or an unexpected one is a DESIGN violation of the check."""
+    import shutil as _sh
+    import subprocess as _sp
+    if _sh.which("apalache-mc") is None:
+        chk.tlc_runs.append({"what": what, "result": "apalache-mc not available"})
+        return
+    sdir = scratch()
+    out_dir = sdir / f"apa_{module}"
+    _sh.copy(str(SPEC_DIR / f"{module}.tla"), str(sdir / f"{module}.tla"))
+    results = []
+    for args, expect in obligations:
+        try:
+            p = _sp.run(["apalache-mc", "check", *args, f"--out-dir={out_dir}", str(sdir / f"{module}.tla")], capture_output=True,
+                        text=True, timeout=timeout, cwd=str(sdir))
+            out = p.stdout + p.stderr
+            ok = "EXITCODE: OK" in out
+            viol = "invariant 0 violated" in out or "Found 1 error" in out
+            res = "ok" if ok else ("violation" if viol else "error")
+            results.append({"args": list(args), "expected": expect, "result": res})
+            if res == "error":
+                raise MachineryError(f"apalache {module} {args}: {out[-600:]}")
+            if res != expect:
+                if expect == "violation":
+                    raise MachineryError(f"apalache {module} {args}: the deviation was expected to be refuted (vacuous)")
+                chk.violation(f"Design.{module}", {"args": " ".join(args)}, {"apalache": out[-2000:]})
+        except _sp.TimeoutExpired:
+            results.append({"args": list(args), "expected": expect, "result": "timeout"})
+    chk.tlc_runs.append({"what": what, "obligations": results})
+    _sh.rmtree(out_dir, ignore_errors=True)
